@@ -144,7 +144,19 @@ impl Property for C11 {
         let mut refuse_qubo: Option<&'static str> = None;
         match scenario {
             0 => {
-                inst.constraints.push(constraint(1, EQ_ZERO, Some(f_linear(linear(vec![(ids[0], 1.0)], 0.0)))));
+                // any active constraint counts: one over a variable, a constant one (what partial_evaluate
+                // leaves of a constraint whose variables were all fixed), one without function
+                let f = match rng.below(6) {
+                    0 => Some(f_const(1.0)),
+                    1 => Some(f_const(0.0)),
+                    2 => Some(f_linear(linear(vec![], -1.0))),
+                    3 => None,
+                    _ => Some(f_linear(linear(vec![(ids[0], 1.0)], 0.0))),
+                };
+                let n_extra = if rng.chance(1, 4) { 2 } else { 1 };
+                for j in 0..n_extra {
+                    inst.constraints.push(constraint(1 + j, if rng.bool() { EQ_ZERO } else { LE_ZERO }, f.clone()));
+                }
                 refuse_pubo = Some("active-constraint");
                 refuse_qubo = Some("active-constraint");
             }
